@@ -411,9 +411,8 @@ inline constexpr void Conversion<Unit::Diffusivity, Unit::Diffusivity::SquareMic
 }
 
 template <typename NumericType>
-inline const std::map<Unit::Diffusivity,
-                      std::function<void(NumericType* const, const std::size_t size)>>
-    MapOfConversionsFromStandard<Unit::Diffusivity, NumericType>{
+inline constexpr auto MapOfConversionsFromStandard<Unit::Diffusivity, NumericType>{
+  MakeConversionTable<Unit::Diffusivity, NumericType>({
       {Unit::Diffusivity::SquareMetrePerSecond,
        Conversions<Unit::Diffusivity, Unit::Diffusivity::SquareMetrePerSecond>::
            FromStandard<NumericType>                         },
@@ -458,12 +457,12 @@ inline const std::map<Unit::Diffusivity,
       {Unit::Diffusivity::SquareMicroinchPerSecond,
        Conversions<Unit::Diffusivity, Unit::Diffusivity::SquareMicroinchPerSecond>::
            FromStandard<NumericType>                         },
+})
 };
 
 template <typename NumericType>
-inline const std::map<Unit::Diffusivity,
-                      std::function<void(NumericType* values, const std::size_t size)>>
-    MapOfConversionsToStandard<Unit::Diffusivity, NumericType>{
+inline constexpr auto MapOfConversionsToStandard<Unit::Diffusivity, NumericType>{
+  MakeConversionTable<Unit::Diffusivity, NumericType>({
       {Unit::Diffusivity::SquareMetrePerSecond,
        Conversions<Unit::Diffusivity, Unit::Diffusivity::SquareMetrePerSecond>::
            ToStandard<NumericType>                         },
@@ -508,6 +507,7 @@ inline const std::map<Unit::Diffusivity,
       {Unit::Diffusivity::SquareMicroinchPerSecond,
        Conversions<Unit::Diffusivity, Unit::Diffusivity::SquareMicroinchPerSecond>::
            ToStandard<NumericType>                         },
+})
 };
 
 }  // namespace Internal
